@@ -56,6 +56,14 @@ assumptions(PROP, [
 ])
 
 NAMES = ["a", "b", "c", "d"]
+# Level names are arbitrary strings: names that look like the placeholders pandas (reset_index, read_csv) or an
+# implementation may invent for unnamed levels must behave like any other name - in particular next to unnamed levels.
+NAME_POOLS = [
+    NAMES,
+    ["level_0", "level_1", "level_2", "index"],
+    ["level_0", "a", "level_1", "index"],
+    ["None", "Unnamed: 0", "level_0", "0"],
+]
 POOLS = {
     "int": [0, 1, 2, 3, 10, -1],
     "str": ["p", "q", "r", "s", "t", "u"],
@@ -363,7 +371,7 @@ def _operand_payload(draw, op, base, kind=None):
     else:
         ncols = 1
         op["columns"] = None
-        op["name"] = draw(st.sampled_from([None, "x", "a", "val"]))
+        op["name"] = draw(st.sampled_from([None, "x", "a", "val", "level_0"]))
     holes = ()
     if op["dtype"] == "float" and draw(st.integers(0, 7)) == 0:
         holes = ((draw(st.integers(0, n - 1)), draw(st.integers(0, ncols - 1))),)
@@ -390,7 +398,8 @@ def layouts(draw, tier, matched_only=False, rels=None, max_private=2):
     """Two index layouts (object, parameter) with a drawn relation of their level names."""
     kmax = 3 if tier == "quick" else 4
     rel = draw(st.sampled_from(rels or ["equal", "disjoint", "obj_in_prm", "prm_in_obj", "overlap", "overlap"]))
-    pool = list(draw(st.permutations(NAMES)))
+    all_names = draw(st.sampled_from(NAME_POOLS))
+    pool = list(draw(st.permutations(all_names)))
     ns = {"equal": draw(st.integers(1, 3)), "disjoint": 0}.get(rel, draw(st.integers(1, 2)))
     shared = [pool.pop() for _ in range(ns)]
 
@@ -469,7 +478,31 @@ def layouts(draw, tier, matched_only=False, rels=None, max_private=2):
 
 
 @st.composite
+def swapped_layouts(draw, tier):
+    """Same SET of level names on both sides in a different ORDER, and key tuples that coincide position by position:
+    every level carries the same key list, both operands list the full product in the same (possibly shuffled) order.
+    Read by position the two indexes are ``equals()``; read by name row i of the parameter belongs to another object row."""
+    n = draw(st.sampled_from([2, 2, 2, 3]))
+    names = list(draw(st.permutations(draw(st.sampled_from(NAME_POOLS)))))[:n]
+    perm = draw(st.permutations(range(n)).filter(lambda q: list(q) != list(range(n))))
+    kind = draw(st.sampled_from(["int", "int", "str", "float", "interval"]))
+    count = draw(st.integers(2, 3 if n == 2 else 2))
+    keys = POOLS[kind][:count] if draw(st.booleans()) else list(draw(st.permutations(POOLS[kind])))[:count]
+    rows = [list(t) for t in itertools.product(keys, repeat=n)]
+    if draw(st.booleans()):
+        rows = list(draw(st.permutations(rows)))
+    op_o = {"names": names, "kinds": [kind] * n, "rows": [list(r) for r in rows]}
+    op_p = {"names": [names[i] for i in perm], "kinds": [kind] * n, "rows": [list(r) for r in rows]}
+    return op_o, op_p, "equal"
+
+
+@st.composite
 def _align_cases(draw, tier):
+    if draw(st.integers(0, 9)) == 0:
+        op_o, op_p, rel = draw(swapped_layouts(tier))
+        draw(_operand_payload(op_o, 1))
+        draw(_operand_payload(op_p, 1000))
+        return {"obj": op_o, "prm": op_p, "same_index_object": False}
     op_o, op_p, rel = draw(layouts(tier))
     same_object = False
     if rel == "equal" and draw(st.integers(0, 3)) == 0:
@@ -503,6 +536,13 @@ def _label_layout(case, ctx):
         ctx.label("three_levels")
     if case.get("same_index_object"):
         ctx.label("same_index_object")
+    if rel == "equal" and op_o["names"] != op_p["names"] and op_o["rows"] == op_p["rows"]:
+        ctx.label("swapped_levels_same_tuples")
+    placeholder = [n for n in op_o["names"] + op_p["names"] if n is not None and n not in NAMES]
+    if placeholder:
+        ctx.label("placeholder_names")
+        if None in op_o["names"] + op_p["names"]:
+            ctx.label("placeholder_name_next_to_unnamed")
     return rel
 
 
@@ -550,13 +590,14 @@ def _enum_layouts(maxlev, pool):
 
 
 def _enum_cases(tier):
-    """ALL pairs of level-name layouts with up to 2 (thorough: 3) levels over {a, b, c, None}; every level has two keys
+    """ALL pairs of level-name layouts with up to 2 (thorough: 3) levels over {a, level_0, level_1, None} (two of the three
+    names look like placeholders for unnamed levels - names are arbitrary strings); every level has two keys
     (base of the level name + {0, 1}: different keys, same positional codes), listed forwards or backwards per operand
     and level; full product rows; Series x Series and DataFrame x DataFrame (thorough: all four).  Thorough adds a third
     key list per parameter level that is disjoint from the object's (only where the quantifier admits missing keys)."""
     quick = tier == "quick"
-    lays = _enum_layouts(2 if quick else 3, ["a", "b", "c", None])
-    base = {"a": 0, "b": 10, "c": 20, None: 30}
+    lays = _enum_layouts(2 if quick else 3, ["a", "level_0", "level_1", None])
+    base = {"a": 0, "level_0": 10, "level_1": 20, None: 30}
     kinds = [("series", "series"), ("frame", "frame")] if quick else \
         [("series", "series"), ("frame", "frame"), ("series", "frame"), ("frame", "series")]
     variants = ["fwd", "rev"]
@@ -592,7 +633,7 @@ def _enum_cases(tier):
 
 
 @subcheck(PROP, "align_exhaustive", enumerate_=_enum_cases,
-          doc="bounded exhaustive: every pair of level-name layouts with <= 2 (thorough 3) levels over {a,b,c,None}, two keys per level "
+          doc="bounded exhaustive: every pair of level-name layouts with <= 2 (thorough 3) levels over {a,level_0,level_1,None}, two keys per level "
               "listed forwards/backwards (positional codes of different level names coincide by construction)")
 def align_exhaustive(case, ctx):
     run_alignment(case, ctx)
@@ -929,7 +970,10 @@ def _f05_models(po, pp):
 # --------------------------------------------------------------------------- downstream: Woehler curves
 @st.composite
 def _woehler_cases(draw, tier):
-    op_o, op_p, rel = draw(layouts(tier, matched_only=True))
+    if draw(st.integers(0, 3)) == 0:
+        op_o, op_p, rel = draw(swapped_layouts(tier))
+    else:
+        op_o, op_p, rel = draw(layouts(tier, matched_only=True))
     n, m = len(op_o["rows"]), len(op_p["rows"])
     cols = ["k_1", "ND", "SD"]
     extra = draw(st.sampled_from([[], ["k_2"], ["TN"], ["k_2", "TN", "TS"]]))
